@@ -606,6 +606,7 @@ impl FixtureDatabase {
 
         // Try AST-based analysis first
         let parsed = self.get_parsed_ast(file_path, &content);
+        let parsed_ok = parsed.is_some();
 
         if let Some(parsed) = parsed {
             let line_index = self.get_line_index(file_path, &content);
@@ -631,8 +632,10 @@ impl FixtureDatabase {
             }
         }
 
-        // Fallback: text-based analysis for incomplete/invalid Python
-        self.get_completion_context_from_text(&content, target_line)
+        // Fallback: text-based analysis. The signature heuristics are for incomplete/invalid
+        // Python only: in a document that parses, a line the AST path does not classify is
+        // outside every test or fixture function pytest collects.
+        self.get_completion_context_from_text(&content, target_line, parsed_ok)
     }
 
     /// Check whether a `@pytest.fixture` decorator appears in the lines immediately
@@ -817,6 +820,7 @@ impl FixtureDatabase {
         &self,
         content: &str,
         target_line: usize,
+        parsed_ok: bool,
     ) -> Option<CompletionContext> {
         let mut lines: Vec<&str> = content.lines().collect();
 
@@ -835,6 +839,11 @@ impl FixtureDatabase {
         // Check usefixtures/pytestmark context first (mirrors AST path priority)
         if let Some(ctx) = Self::get_usefixtures_context_from_text(&lines, cursor_idx) {
             return Some(ctx);
+        }
+
+        // The document parses: the AST path has already looked at every collected function
+        if parsed_ok {
+            return None;
         }
 
         // Scan backward for def/async def.
